@@ -106,7 +106,7 @@ pub fn run(tier: Tier) -> i32 {
     let deadline = Deadline::after(Duration::from_secs(tier.pick(50, 3000)));
     let acc = par_for(pop.len(), 32, &deadline, |i, acc| check_one(&pop.get(i), acc));
     rep.acc = acc;
-    rep.set("rule", json!("E2: every file of the population (all entry-shape sequences up to n x the full 224-layout grid; x all codec/level pairs at 3 layouts; all layouts x every codec at small n; deep and dense families x every codec) is written by the real Writer, opened, and scanned forward (move_on_next) and backward (move_on_prev) from fresh cursors against the inserted vector, with Reader::len and compression_type checked; states = files, transitions = scans; distinct_nontrivial = files in which some level has >= 2 blocks (more blocks than index_levels + 2)"));
+    rep.set("rule", json!("E2: every file of the population (all entry-shape sequences up to n x the full 252-layout grid (9 block sizes x 4 intervals x 7 index depths); x all codec/level pairs at 3 layouts; all layouts x every codec at small n; deep and dense families x every codec) is written by the real Writer, opened, and scanned forward (move_on_next) and backward (move_on_prev) from fresh cursors against the inserted vector, with Reader::len and compression_type checked; states = files, transitions = scans; distinct_nontrivial = files in which some level has >= 2 blocks (more blocks than index_levels + 2)"));
     rep.set("bound", pop.describe());
     rep.assume("third-party codecs are trusted to round-trip; grenad's framing around them is what is checked");
     rep.finish()
